@@ -139,6 +139,10 @@ class Graph:
         blocked = set(blocked)
         seen = set()
         stack = []
+        starts = list(starts)
+        if any(s is None for s in starts):
+            from .extract import AnalysisBroken
+            raise AnalysisBroken("%s: an expression the rule anchors on is not a single element of the control-flow graph (split by && / || or folded away)" % self.fn.name)
         for s in starts:
             if include_start:
                 if s not in blocked:
